@@ -11,7 +11,7 @@ open LccModel.Run
 /-- What a task emits is a function of the project, the fixture-instance state it starts from, the worker
     and the decision taken for it — not of what other tasks do meanwhile: two runs of the same task from the
     same inputs produce the same items, result and effects (the model validated against the real runs has no
-    other input; the interrupt `cut` and `failLookupsFrom` are fixed to `none` in schedule-independent runs). -/
+    other input; the interrupt `cut` is fixed to `none` in schedule-independent runs). -/
 theorem task_output_is_a_function_of_its_inputs (P : Proj) (insts : Insts) (w : Nat) (t : TaskId) (run reason : Bool)
     (kept : List Td) : ∀ o₁ o₂, o₁ = runTask P insts w t run reason kept none → o₂ = runTask P insts w t run reason kept none →
       o₁.items = o₂.items ∧ o₁.res = o₂.res := by
